@@ -10,6 +10,7 @@ import (
 	"os"
 	"os/exec"
 	"strings"
+	"sync"
 
 	"github.com/biogo/biogo/alphabet"
 	"github.com/biogo/biogo/seq/linear"
@@ -401,7 +402,7 @@ func check(c *enum.Ctx, k kase) (nontrivial bool) {
 }
 
 func run(c *enum.Ctx) {
-	c.Rule("complete enumeration: kind x encoding x all 256 values (x 5 offsets for the probability grids); the same encode/decode/probability laws through quality.Phred, quality.Solexa and linear.QSeq (QEncode, QDecode, EAt, SetE, %q) after every two-step encoding history (built with encoding A, encoded once, optionally copied, SetEncoding(B)) x all values; each kind of law also as the first use of the package in a fresh process (12 cold-start helper processes); a case is non-trivial when the oracle applies (value inside the printable/representable range the statement names); distinct by (kind,encoding,value,offset)")
+	c.Rule("complete enumeration: kind x encoding x all 256 values (x 5 offsets for the probability grids); the same encode/decode/probability laws through quality.Phred, quality.Solexa and linear.QSeq (QEncode, QDecode, EAt, SetE, %q) after every two-step encoding history (built with encoding A, encoded once, optionally copied, SetEncoding(B)) x all values; each kind of law also as the first use of the package in a fresh process (12 cold-start helper processes), and with eight goroutines making the first uses at once (6 processes, free-running); a case is non-trivial when the oracle applies (value inside the printable/representable range the statement names); distinct by (kind,encoding,value,offset)")
 	c.Assume("printable range: bytes 33..126 (Illumina1_5: 'B'..126; Solexa: 59..126, i.e. scores from -5)", "sentinel scores 254/255 (Phred) and 127/-128 (Solexa) are excluded", "math.Pow/math.Log10 of this Go toolchain are the analytic reference (1e-12 relative tolerance)")
 	add := func(k kase) {
 		c.Doing(0, k)
@@ -433,6 +434,27 @@ func run(c *enum.Ctx) {
 			c.Fail("cold-start/"+v.Class, k, "as the first use of the package in a process: %s", v.Message)
 		}
 		c.Add("cold_start_processes", 1)
+	}
+	// ... and with the first uses made by several goroutines at once (a free-running pass, not an
+	// enumeration of schedules: tables that are built on first use must be built before anyone reads them;
+	// a process gives one chance, so a few processes are started)
+	for round := 0; round < 6; round++ {
+		out, err := exec.Command(os.Args[0], "--cold-concurrent", fmt.Sprint(round)).Output()
+		if err != nil {
+			c.NotExhaustive("concurrent cold-start helper: " + err.Error())
+			continue
+		}
+		var vs []*enum.Violation
+		if json.Unmarshal(out, &vs) != nil {
+			c.NotExhaustive("concurrent cold-start helper: unreadable output")
+			continue
+		}
+		for _, v := range vs {
+			var k kase
+			json.Unmarshal(v.Input, &k)
+			c.Fail("cold-start-concurrent/"+v.Class, k, "as one of the first uses of the package, made by eight goroutines at once in a fresh process (a single-threaded replay will not show it): %s", v.Message)
+		}
+		c.Add("concurrent_cold_start_processes", 1)
 	}
 }
 
@@ -495,6 +517,33 @@ func main() {
 			for i := range mine {
 				check(c, mine[(start+i)%len(mine)])
 			}
+		})
+		json.NewEncoder(os.Stdout).Encode(vs)
+		return
+	}
+	if len(os.Args) == 3 && os.Args[1] == "--cold-concurrent" {
+		var round int
+		fmt.Sscan(os.Args[2], &round)
+		vs := enum.Collect("C18", func(c *enum.Ctx) {
+			pure := []string{"phred-encode-decode", "solexa-encode-decode", "byte-decode-encode", "phred-probe", "solexa-probe", "phred-to-solexa", "solexa-to-phred", "phred-eprob-grid"}
+			per := map[string][]kase{}
+			enumerate(func(k kase) { per[k.Kind] = append(per[k.Kind], k) })
+			start := make(chan struct{})
+			var wg sync.WaitGroup
+			for g := 0; g < 8; g++ {
+				mine := per[pure[(g+round)%len(pure)]]
+				wg.Add(1)
+				go func() {
+					defer wg.Done()
+					<-start
+					from := len(mine) * 75 / 100
+					for i := range mine {
+						check(c, mine[(from+i)%len(mine)])
+					}
+				}()
+			}
+			close(start)
+			wg.Wait()
 		})
 		json.NewEncoder(os.Stdout).Encode(vs)
 		return
